@@ -535,6 +535,14 @@ theorem apply_frameM (c : CS) (hf : c.fail = false) (x : Call) (hx : PlainOk x) 
     unfold CS.apply
     simp only [hf, Bool.false_eq_true, ↓reduceIte]
     exact ⟨h.1, h.2⟩
+  | acycEdge a b cond =>
+    rw [apply_edge_eq c hf]
+    have h := makeAtom_frameM (pass c (.acycEdge a b cond)) cond true
+    have hp : (pass c (.acycEdge a b cond)).minimize = c.minimize ∧ minsOf (pass c (.acycEdge a b cond)).out = minsOf c.out := by
+      unfold pass; split
+      · exact ⟨rfl, by simp [CS.emit, minsOf_append, minsOf, minOf]⟩
+      · exact ⟨rfl, rfl⟩
+    exact ⟨h.1.trans hp.1, h.2.trans hp.2⟩
   | external a v =>
     have h := rest_mapAtom c a
     rw [apply_external_eq c hf]
@@ -607,6 +615,11 @@ theorem M.step {c : CS} {Ms} (hM : M c Ms) (hf : c.fail = false) (x : Call) (hx 
     have e : minsOf [Call.output str cond] = [] := rfl
     rw [e, List.append_nil]
     exact ⟨fun X p => by rw [h1]; exact hM.cost X p, by rw [h1]; exact hM.nz, h2.trans hM.nomin⟩
+  | acycEdge a b cond =>
+    simp only at h1
+    have e : minsOf [Call.acycEdge a b cond] = [] := rfl
+    rw [e, List.append_nil]
+    exact ⟨fun X p => by rw [h1]; exact hM.cost X p, by rw [h1]; exact hM.nz, h2.trans hM.nomin⟩
   | external a v =>
     simp only at h1
     have e : minsOf [Call.external a v] = [] := rfl
@@ -615,10 +628,10 @@ theorem M.step {c : CS} {Ms} (hM : M c Ms) (hf : c.fail = false) (x : Call) (hx 
   | _ => exact absurd hx (by simp [PlainOk])
 
 theorem run_plainM {c : CS} {P O defs Ms} {t : T} (hj : J c P defs) (hk : K c O defs) (hM : M c Ms) (hxi : XI c t) (ds : List Call) (hx : ∀ d ∈ ds, PlainOk d) :
-    ∃ defs', J (ds.foldl CS.apply c) (P ++ (rulesOf ds).filter kept) defs' ∧ K (ds.foldl CS.apply c) (O ++ outsOf ds) defs' ∧
+    ∃ defs', J (ds.foldl CS.apply c) (P ++ (rulesOf ds).filter kept) defs' ∧ K (ds.foldl CS.apply c) (O ++ srcOuts ds) defs' ∧
       M (ds.foldl CS.apply c) (Ms ++ minsOf ds) ∧ XI (ds.foldl CS.apply c) (t.run ds) := by
   induction ds generalizing c P O defs Ms t with
-  | nil => exact ⟨defs, by simpa [rulesOf] using hj, by simpa [outsOf] using hk, by simpa [minsOf] using hM, hxi⟩
+  | nil => exact ⟨defs, by simpa [rulesOf] using hj, by simpa [srcOuts] using hk, by simpa [minsOf] using hM, hxi⟩
   | cons d r ih =>
     obtain ⟨defs1, h1, k1⟩ := apply_plain hj hk d (hx d (by simp))
     have m1 := hM.step hj.nofail d (hx d (by simp))
@@ -628,7 +641,7 @@ theorem run_plainM {c : CS} {P O defs Ms} {t : T} (hj : J c P defs) (hk : K c O 
     · have : rulesOf (d :: r) = rulesOf [d] ++ rulesOf r := by rw [← rulesOf_append]; rfl
       rw [this, List.filter_append, ← List.append_assoc]
       exact h2
-    · have : outsOf (d :: r) = outsOf [d] ++ outsOf r := by rw [← outsOf_append]; rfl
+    · have : srcOuts (d :: r) = srcOuts [d] ++ srcOuts r := by rw [← srcOuts_append]; rfl
       rw [this, ← List.append_assoc]
       exact k2
     · have : minsOf (d :: r) = minsOf [d] ++ minsOf r := by rw [← minsOf_append]; rfl
@@ -722,7 +735,7 @@ theorem M.emit {c : CS} {Ms} (hM : M c Ms) (x : Call) (hx : minOf x = none) : M 
 
 /-- all invariants hold just before `endStep` -/
 theorem JKM.pre (ext inc : Bool) (ds : List Call) (hx : ∀ d ∈ ds, PlainOk d) :
-    ∃ defs, J (preEnd ext inc ds) ((rulesOf ds).filter kept) defs ∧ K (preEnd ext inc ds) (outsOf ds) defs ∧ M (preEnd ext inc ds) (minsOf ds) ∧
+    ∃ defs, J (preEnd ext inc ds) ((rulesOf ds).filter kept) defs ∧ K (preEnd ext inc ds) (srcOuts ds) defs ∧ M (preEnd ext inc ds) (minsOf ds) ∧
       XI (preEnd ext inc ds) (({} : T).run ds) := by
   have a1 : J (CS.apply { ext := ext } (.initProgram inc)) [] [] := by
     rw [apply_init _ rfl]; exact (J.init ext).emit _ rfl
@@ -810,6 +823,10 @@ theorem apply_plain_ext (c : CS) (hf : c.fail = false) (x : Call) (hx : PlainOk 
   | output str cond =>
     rw [apply_output_eq c hf]
     exact makeAtom_ext c cond true
+  | acycEdge a b cond =>
+    rw [apply_edge_eq c hf]
+    have hp : (pass c (.acycEdge a b cond)).ext = c.ext := by unfold pass; split <;> rfl
+    exact (makeAtom_ext _ cond true).trans hp
   | external a v =>
     rw [apply_external_eq c hf]; split
     · show (c.mapAtom a).1.ext = _; exact rext (rest_mapAtom c a)
@@ -843,7 +860,7 @@ theorem preEnd_ext (ext inc : Bool) (ds : List Call) (hx : ∀ d ∈ ds, PlainOk
     externals' rules on the input side -/
 theorem step_all (ext inc : Bool) (ds : List Call) (hx : ∀ d ∈ ds, PlainOk d) (hE : ext = false ∨ extCalls ds = []) :
     ∃ defs, J (convert ext (stepCalls inc ds)) ((rulesOf ds).filter kept ++ extRules ds) defs ∧
-      J (preEnd ext inc ds) ((rulesOf ds).filter kept) defs ∧ K (preEnd ext inc ds) (outsOf ds) defs ∧ M (preEnd ext inc ds) (minsOf ds) ∧
+      J (preEnd ext inc ds) ((rulesOf ds).filter kept) defs ∧ K (preEnd ext inc ds) (srcOuts ds) defs ∧ M (preEnd ext inc ds) (minsOf ds) ∧
       FlushShape (preEnd ext inc ds).flushMinimize ∧ Steps (abs (preEnd ext inc ds)) (abs (convert ext (stepCalls inc ds))) := by
   obtain ⟨defs, h1, k1, m1, x1⟩ := JKM.pre ext inc ds hx
   have hE' : (preEnd ext inc ds).ext = false ∨ (preEnd ext inc ds).externs = [] := by
